@@ -80,6 +80,8 @@ type Node struct {
 	stubs  []queue.Client
 	closed bool
 	mu     sync.Mutex
+	// CloseHung is set when a shutdown had to be abandoned.
+	CloseHung bool
 	// P2PLog records what the node sent to its p2p module.
 	P2PLog []P2PMsg
 }
@@ -211,12 +213,28 @@ func (n *Node) stub(topic string, h func(msg *queue.Message)) {
 	}()
 }
 
-// Close stops all modules (a clean shutdown).
+// Close stops all modules (a clean shutdown). A shutdown that does not finish
+// within two virtual minutes (a module waiting for a goroutine that will never
+// exit) is abandoned, so that the run's verdict is not lost in the clean-up; the
+// goroutines left behind stay durably blocked and end with the bubble.
 func (n *Node) Close() {
 	if n.closed {
 		return
 	}
 	n.closed = true
+	done := make(chan struct{})
+	go func() {
+		n.closeNow()
+		close(done)
+	}()
+	select {
+	case <-done:
+	case <-time.After(2 * time.Minute):
+		n.CloseHung = true
+	}
+}
+
+func (n *Node) closeNow() {
 	if n.Mem != nil {
 		n.Mem.Close()
 	}
